@@ -33,7 +33,9 @@ def _pools():
                lambda u: ["RENAME", K, K2]],
         nolin=[lambda u: ["DEL", K2, K], lambda u: ["EXISTS", K, K2]])
     P["set"] = dict(
-        setups=[[], [["SADD", K, "m1"]], [["SADD", K, "m1", "m2"]], [["SADD", K, "m1"], ["SADD", K2, "m2"]]],
+        # the last three: K is the product of a storing command with a single source (a value made by copying, not by SADD)
+        setups=[[], [["SADD", K, "m1"]], [["SADD", K, "m1", "m2"]], [["SADD", K, "m1"], ["SADD", K2, "m2"]],
+                [["SADD", K2, "m1", "m2"], ["SINTERSTORE", K, K2]], [["SADD", K2, "m1"], ["SDIFFSTORE", K, K2]], [["SADD", K2, "m1"], ["SUNIONSTORE", K, K2]]],
         cmds=[lambda u: ["SADD", K, u], lambda u: ["SADD", K, "m1"], lambda u: ["SREM", K, "m1"], lambda u: ["SPOP", K], lambda u: ["SCARD", K],
               lambda u: ["SISMEMBER", K, "m1"], lambda u: ["SMEMBERS", K], lambda u: ["DEL", K]],
         multi=[lambda u: ["SMOVE", K, K2, "m1"], lambda u: ["SMOVE", K2, K, "m2"], lambda u: ["SMOVE", K, K, "m1"], lambda u: ["RENAME", K, K2]],
